@@ -45,9 +45,12 @@ func newC19Env(t *testing.T, transactional bool) *c19Env {
 	// revocation retries back off from 40ms instead of 10s, so that a revocation that failed during a generated
 	// storage outage is retried within the wait of a case
 	tc := mustBoot(t, coreOpts{transactional: transactional, cacheOff: true, retryBase: 40 * time.Millisecond,
-		logical: map[string]logical.Factory{"recbe": hub.factory("recbe", logical.TypeLogical)}})
+		logical:    map[string]logical.Factory{"recbe": hub.factory("recbe", logical.TypeLogical)},
+		credential: map[string]logical.Factory{"recauth": hub.factory("recauth", logical.TypeCredential)}})
 	hub.physSeq = tc.rec.Seq
 	tc.mount("rb", "recbe", nil)
+	// an auth method whose logins may carry a use limit and an identity alias (histories unit)
+	tc.enableAuth("ra", "recauth")
 	tc.mount("other", "recbe", nil)
 	tc.writePolicy("c19", c19Policy)
 	// a child namespace with the same backend: a token of the root namespace may be used there too
@@ -130,6 +133,86 @@ func (e *c19Env) accessors() map[string]bool {
 	return out
 }
 
+// awaitRevocation: all uses of tok are spent. Its revocation and that of its leases is queued for the expiration
+// workers: bounded wait, then a verdict on whether anything is still going to happen.
+func (e *c19Env) awaitRevocation(rt *rapid.T, rec *verifx.Recorder, tok, salted, acc string, n int, describe func() map[string]any) {
+	tc, hub := e.tc, e.hub
+	deadline := time.Now().Add(10 * time.Second)
+	var out []string
+	entry, stored := true, false
+	for {
+		out = hub.outstanding()
+		stored = false
+		lr := tc.req(logical.UpdateOperation, "auth/token/lookup-accessor", tc.root, map[string]any{"accessor": acc})
+		entry = lr.ok() && lr.resp != nil
+		if !entry {
+			// not visible any more is not yet gone: an entry that is marked as awaiting its revocation (or whose
+			// lease is gone) is hidden from lookups but still stored, with its accessor, parent index and
+			// cubbyhole, until a revocation has gone through; look at the stored record itself
+			if raw, rerr := tc.c.tokenStore.idView(namespace.RootNamespace).Get(tc.ctx, salted); rerr != nil || raw != nil {
+				entry, stored = true, raw != nil
+			}
+		}
+		if (len(out) == 0 && !entry) || time.Now().After(deadline) {
+			break
+		}
+		time.Sleep(2 * time.Millisecond)
+	}
+	if entry {
+		// Nothing happened within the wait. Decide whether anything is still going to happen: the exhausted
+		// token is revoked through its lease, which the last use moves into the past. If the entry is still
+		// stored, its lease still expires far in the future and no revocation job is queued, nobody will ever
+		// revoke it (until its own TTL lapses): that is not slowness but the statement's "after its last use
+		// the token is revoked together with the leases issued under it" broken.
+		te, lerr := tc.c.tokenStore.lookupInternal(tc.ctx, tok, false, true)
+		if lerr == nil && te == nil && stored && tc.c.expiration.jobManager.GetPendingJobCount() == 0 {
+			// no lookup returns the token any more (the lease that drives its revocation is gone, so the expiration
+			// manager is done with it) but its record is still in storage
+			rec.Violation(rt, "exhausted-token-never-revoked", describe(), "all %d uses of the token are spent (it is refused) and no lookup returns it, but 10s later its entry is still in storage (sys/token/id/%s) and no revocation is queued; secrets leased under it that are still outstanding: %v", n, salted, out)
+		}
+		if lerr == nil && te != nil && tc.c.expiration.jobManager.GetPendingJobCount() == 0 {
+			le, ferr := tc.c.expiration.FetchLeaseTimesByToken(tc.ctx, te)
+			scheduled := false
+			if ferr == nil && le != nil {
+				// a lease with a timer (first attempt or retry) is in the pending map; one that is parked as
+				// non-expiring, or not tracked at all, will never be looked at again
+				_, scheduled = tc.c.expiration.pending.Load(le.LeaseID)
+			}
+			switch {
+			case ferr != nil:
+			case le == nil:
+				rec.Violation(rt, "exhausted-token-never-revoked", describe(), "all %d uses of the token are spent (it is refused), but 10s later its entry is still stored while the lease that drives its revocation is gone and no revocation is queued; secrets still outstanding: %v", n, out)
+			case !scheduled:
+				rec.Violation(rt, "exhausted-token-never-revoked", describe(), "all %d uses of the token are spent (it is refused), but 10s later its entry is still stored, its lease (expiry %v) has no timer and no revocation is queued; secrets still outstanding: %v", n, le.ExpireTime.Format(time.RFC3339), out)
+			case le.ExpireTime.After(time.Now().Add(5 * time.Minute)):
+				rec.Violation(rt, "exhausted-token-never-revoked", describe(), "all %d uses of the token are spent (it is refused), but 10s later its entry is still stored, its lease expires only at %v, no revocation is queued, and the secrets %v leased under it are not revoked", n, le.ExpireTime.Format(time.RFC3339), out)
+			}
+		}
+	}
+	if len(out) > 0 || entry {
+		rec.Note("inconclusive: after 10s secrets %v not revoked / token entry present=%v", out, entry)
+		hub.mu.Lock()
+		for _, id := range out {
+			hub.revoked[id] = -1
+		}
+		hub.mu.Unlock()
+		rec.Class("inconclusive-revocation-wait", 1)
+	}
+}
+
+// saltedID: the key of the token's records (the stored id need not be the string handed to the client).
+func (e *c19Env) saltedID(t *testing.T, tok string) string {
+	te, err := e.tc.c.tokenStore.lookupInternal(e.tc.ctx, tok, false, true)
+	if err != nil || te == nil {
+		t.Fatalf("harness: fresh token not found: %v", err)
+	}
+	salted, err := e.tc.c.tokenStore.SaltID(e.tc.ctx, te.ID)
+	if err != nil {
+		t.Fatalf("harness: salt: %v", err)
+	}
+	return salted
+}
+
 func TestVerif_C19_UseLimit(t *testing.T) {
 	rec := verifx.NewRecorder("C19", "use-limit", "token with num_uses n in 1..4 and m in n+1..n+3 concurrent requests (echo/kv read/kv write/policy-denied/lease-generating/lookup-self/child-token create, and echo/kv write addressed to a child namespace the token's policy reaches into) presenting it, interleaved at storage-operation granularity by a generated schedule (stay-or-switch random walk, shrinks to few preemptions); oracle: requests that reached a backend handler or succeeded at the token store <= n, no child token, token dead afterwards, every secret leased under it revoked; also sequential histories (exact count), a third of them with a restart of the server between two uses; non-trivial = at least one context switch between two unfinished tasks inside the requests")
 	defer rec.Flush()
@@ -186,6 +269,7 @@ func TestVerif_C19_UseLimit(t *testing.T) {
 			t.Fatalf("harness: cannot create use-limited token: %v", r)
 		}
 		rec.Class("token-shape:"+shape, 1)
+		salted := env.saltedID(t, tok)
 		accBefore := env.accessors()
 		callsBefore := len(hub.handlerCalls())
 		sched := verifx.NewSched(tc.rec)
@@ -367,56 +451,7 @@ func TestVerif_C19_UseLimit(t *testing.T) {
 		if post.ok() || postReached {
 			rec.Violation(rt, "alive-after-uses", describe(), "token still authorises a request after %d requests with num_uses=%d", m, n)
 		}
-		// revocation of the exhausted token and of its leases is queued for the expiration workers: bounded wait
-		{
-			deadline := time.Now().Add(10 * time.Second)
-			var out []string
-			entry := true
-			for {
-				out = hub.outstanding()
-				lr := tc.req(logical.UpdateOperation, "auth/token/lookup-accessor", tc.root, map[string]any{"accessor": acc})
-				entry = lr.ok() && lr.resp != nil
-				if (len(out) == 0 && !entry) || time.Now().After(deadline) {
-					break
-				}
-				time.Sleep(2 * time.Millisecond)
-			}
-			if entry {
-				// Nothing happened within the wait. Decide whether anything is still going to happen: the exhausted
-				// token is revoked through its lease, which the last use moves into the past. If the entry is still
-				// stored, its lease still expires far in the future and no revocation job is queued, nobody will ever
-				// revoke it (until its own TTL lapses): that is not slowness but the statement's "after its last use
-				// the token is revoked together with the leases issued under it" broken.
-				te, lerr := tc.c.tokenStore.lookupInternal(tc.ctx, tok, false, true)
-				if lerr == nil && te != nil && tc.c.expiration.jobManager.GetPendingJobCount() == 0 {
-					le, ferr := tc.c.expiration.FetchLeaseTimesByToken(tc.ctx, te)
-					scheduled := false
-					if ferr == nil && le != nil {
-						// a lease with a timer (first attempt or retry) is in the pending map; one that is parked as
-						// non-expiring, or not tracked at all, will never be looked at again
-						_, scheduled = tc.c.expiration.pending.Load(le.LeaseID)
-					}
-					switch {
-					case ferr != nil:
-					case le == nil:
-						rec.Violation(rt, "exhausted-token-never-revoked", describe(), "all %d uses of the token are spent (it is refused), but 10s later its entry is still stored while the lease that drives its revocation is gone and no revocation is queued; secrets still outstanding: %v", n, out)
-					case !scheduled:
-						rec.Violation(rt, "exhausted-token-never-revoked", describe(), "all %d uses of the token are spent (it is refused), but 10s later its entry is still stored, its lease (expiry %v) has no timer and no revocation is queued; secrets still outstanding: %v", n, le.ExpireTime.Format(time.RFC3339), out)
-					case le.ExpireTime.After(time.Now().Add(5 * time.Minute)):
-						rec.Violation(rt, "exhausted-token-never-revoked", describe(), "all %d uses of the token are spent (it is refused), but 10s later its entry is still stored, its lease expires only at %v, no revocation is queued, and the secrets %v leased under it are not revoked", n, le.ExpireTime.Format(time.RFC3339), out)
-					}
-				}
-			}
-			if len(out) > 0 || entry {
-				rec.Note("inconclusive: after 10s secrets %v not revoked / token entry present=%v", out, entry)
-				hub.mu.Lock()
-				for _, id := range out {
-					hub.revoked[id] = -1
-				}
-				hub.mu.Unlock()
-				rec.Class("inconclusive-revocation-wait", 1)
-			}
-		}
+		env.awaitRevocation(rt, rec, tok, salted, acc, n, describe)
 		cls := "concurrent"
 		if sequential {
 			cls = "sequential"
